@@ -8,6 +8,7 @@
      host / domain                    request.py:654-695
      path_info_pop / path_info_peek   request.py:502-547
      environ_from_url                 request.py:1504-1550, as REPAIRED by fixes/C13-blank-ipv6-server-name-port.patch
+     host_port                        as REPAIRED by fixes/C13-2-host-port-empty-port.patch
    The environ is the record of the keys these functions read.  url_encoding is UTF-8 (the default) or a
    member of _LATIN_ENCODINGS. *)
 From Coq Require Import NArith List Bool.
@@ -127,9 +128,11 @@ Definition split_host_port (host : str) : str * option str :=
 Definition host_port (e : environ) : str :=
   match e_http_host e with
   | Some host =>
+      (* if not port: the scheme's default ("Host: example.com:" carries no port either; as repaired by
+         fixes/C13-2-host-port-empty-port.patch) *)
       match snd (split_host_port host) with
-      | Some p => p
-      | None => if str_eqb (e_scheme e) s_https then s_443 else s_80
+      | Some (c :: p) => c :: p
+      | _ => if str_eqb (e_scheme e) s_https then s_443 else s_80
       end
   | None => e_server_port e
   end.
